@@ -2168,7 +2168,8 @@ lysp_ext_instance_resolve_argument(struct ly_ctx *ctx, struct lysp_ext_instance 
         }
 
         if (stmt) {
-            LY_CHECK_RET(lydict_insert(ctx, stmt->arg, 0, &ext_p->argument));
+            /* an argument element without any content is the empty string */
+            LY_CHECK_RET(lydict_insert(ctx, stmt->arg ? stmt->arg : "", 0, &ext_p->argument));
             stmt->flags |= LYS_YIN_ARGUMENT;
         }
     }
